@@ -20,7 +20,7 @@ func init() {
 			"(d) the winner is replaced only under score != 0 and (no winner or score > winner's score), Providers is then replaced by the single provider of that response, appended only under bidsEqual, and every counted response is recorded in Participation; " +
 			"(e) the winner is updated only from the collector loops, each bounded by the strategy's deadline context; (f) the block relay caches the winning bid only under a non-nil winner and serves a cached bid only when its value is positive; " +
 			"(g) a relay is listed for unblinding only if its client can supply bids (and, in 'best', unblind); (h) the result of a failed client lookup is not used. " +
-			"Added with the third seeding round: (e, extended) the deadline strategy's cut-off is StartOfSlot(slot) + the configured deadline. NOT decided: that the highest score among all timely bids wins (needs arrival orders), value arithmetic, relay honesty.",
+			"Added with the third seeding round: (e, extended) the deadline strategy's cut-off is StartOfSlot(slot) + the configured deadline. Added with the fifth seeding round: (j) the provider a relay worker queries was obtained for the relay whose settings the worker is given; (y) the relay client cache rule C11.i and the nil-deref rule C16.i are taken over for the auction's packages. NOT decided: that the highest score among all timely bids wins (needs arrival orders), value arithmetic, relay honesty.",
 		Technique: "SSA guard/edge-deletion queries with relation sets and guard-helper summaries (error-nilness), provenance of verifier inputs and score operands, who-may-call on the winner update, use-after-failed-call analysis",
 		Rule:      "obligations (a)-(e),(g),(h) per strategy package; (f) for services/blockrelay/standard",
 	})
@@ -545,6 +545,40 @@ func checkBidStrategy(p *core.Prog, r *core.Report, ds *core.Describer, rel stri
 		}
 		r.Floor("C09.e deadline cut-offs", nDl, 1)
 	}
+
+	// ---- (j) a relay's bids are judged by that relay's own settings: the relay configuration handed to the worker is
+	// the one the worker's provider was obtained for (same loop element; not a position in another list) ----
+	nPair := 0
+	for _, f := range fns {
+		core.EachInstr(f, func(in ssa.Instruction) {
+			g, ok := in.(*ssa.Go)
+			if !ok {
+				return
+			}
+			var relay, provider ssa.Value
+			for _, a := range g.Call.Args {
+				tn := typeName(a.Type())
+				switch {
+				case strings.HasSuffix(tn, "beaconblockproposer.RelayConfig"):
+					relay = a
+				case strings.HasSuffix(tn, "BuilderBidProvider"):
+					provider = a
+				}
+			}
+			if relay == nil || provider == nil {
+				return
+			}
+			nPair++
+			pd := ds.D(provider)
+			rd := ds.D(relay)
+			paired := pd.MentionsValue(relay) || pd.Any(func(x *core.VD) bool {
+				return x.Kind == "field" && x.Name == "Address" && strings.HasPrefix(x.String(), rd.String())
+			})
+			r.Check(paired, "C09.j", fmt.Sprintf("%s|%s|provider-of-this-relay#%d", tag, core.FnKey(f), nPair), p.Pos(g.Pos()), "the worker's provider was obtained for the relay whose settings it is given",
+				"the worker is given the provider "+pd.String()+" together with the relay settings "+rd.String()+", which is not the relay that provider was obtained for: when an earlier relay is skipped every later relay's bids are judged by its neighbour's minimum value, key and grace")
+		})
+	}
+	r.Floor("C09.j workers started with a relay and its provider in "+tag, nPair, 1)
 
 	// ---- (g) unblinding list ----
 	for _, f := range fns {
